@@ -20,9 +20,12 @@ CONSTANTS Links,        \* [Chains -> SUBSET Chains] initial clients
           UserData,     \* payloads users send
           RuleChains,   \* chains whose routing rules governance changes
           AdvOn,        \* TRUE: the relayer also submits altered messages
-          ExpireOn,     \* TRUE: clients may expire
+          ExpirePairs,  \* {<<c, x>>}: clients (of x on c) that may expire (short trusting period in the harness)
+          ExportOn,     \* TRUE: chains are exported and re-imported at arbitrary points (C16)
           LOG,          \* TRUE: record events in evlog (generation)
-          SimDepth      \* print evlog when it reaches this length (generation)
+          SimDepth,     \* print evlog when it reaches this length (generation)
+          SimMode       \* "mixed": everything; "replay": honest traffic, cleans and replays of every old message;
+                        \* "long": one busy channel with many sequences, out-of-order acknowledgements and cleans
 
 Relays == Chains \cup {""}
 Kinds  == {"commit", "ack", "clean"}
@@ -33,6 +36,7 @@ Init ==
   /\ ever = [c \in Chains |-> [cm |-> {}, ak |-> {}, cp |-> {}]]
   /\ sent = {} /\ delivered = {} /\ acked = {} /\ cb1 = {} /\ cb2 = {}
   /\ evlog = <<>>
+  /\ frozen = [c \in Chains |-> {}]
 
 Pf(x, kind, s, d, n, mode) == [chain |-> x, kind |-> kind, s |-> s, d |-> d, n |-> n, mode |-> mode]
 Ev(act, c) == [act |-> act, c |-> c]
@@ -54,7 +58,8 @@ CleanEvents ==
   {[act |-> "Clean", c |-> c, cp |-> [src |-> c, dst |-> d, relay |-> rl, seq |-> n]] :
      c \in Senders, d \in Dests, rl \in UserRelays, n \in 1..MaxSeq}
 RuleEvents == {[act |-> "SetRules", c |-> c, rules |-> rs] : c \in RuleChains, rs \in RuleSets}
-ExpireEvents == IF ExpireOn THEN {[act |-> "Expire", c |-> c, x |-> x] : c \in Chains, x \in Chains} ELSE {}
+ExpireEvents == {[act |-> "Expire", c |-> px[1], x |-> px[2]] : px \in {q \in ExpirePairs : q[2] \notin cs[q[1]].ex}}
+ExportEvents == IF ExportOn THEN {[act |-> "ExportImport", c |-> c] : c \in Chains} ELSE {}
 
 -------------------------------------------------------------------------------
 (* genuine relayer messages *)
@@ -128,7 +133,7 @@ Adversarial == (UNION {AltMsg(m) : m \in Genuine}) \cup ForgedAck \cup ForgedCle
 -------------------------------------------------------------------------------
 Log(e) == evlog' = IF LOG THEN Append(evlog, e) ELSE evlog
 
-UserEvents == {e \in SendEvents : e.pkt.seq <= MaxSeq} \cup BadSendEvents \cup CleanEvents \cup RuleEvents \cup ExpireEvents
+UserEvents == {e \in SendEvents : e.pkt.seq <= MaxSeq} \cup BadSendEvents \cup CleanEvents \cup RuleEvents \cup ExpireEvents \cup ExportEvents
 
 Next ==
   \/ \E e \in UserEvents : Do(e) /\ Log(e)
@@ -154,13 +159,25 @@ SimEvent ==
       sends   == {e \in SendEvents : e.pkt.seq <= MaxSeq /\ e.pkt.dst # e.c}
       anySend == PickOr(sends, RandomElement(BadSendEvents))
       honest  == PickOr(Useful(Genuine), anySend)
-  IN  IF roll <= 3 THEN anySend
+      okClean == PickOr(Useful(CleanEvents), PickOr(CleanEvents, anySend))
+  IN  IF SimMode = "replay"
+      THEN (IF roll <= 3 THEN anySend
+            ELSE IF roll <= 10 THEN honest
+            ELSE IF roll <= 13 THEN okClean
+            ELSE IF roll <= 14 THEN PickOr(RuleEvents \cup ExportEvents, honest)
+            ELSE PickOr(Genuine, anySend))                          \* any message ever genuine, again
+      ELSE IF SimMode = "long"
+      THEN (IF roll <= 7 THEN anySend
+            ELSE IF roll <= 15 THEN honest
+            ELSE IF roll <= 18 THEN PickOr(CleanEvents, anySend)
+            ELSE PickOr(Genuine, anySend))
+      ELSE IF roll <= 3 THEN anySend
       ELSE IF roll <= 9 THEN honest
       ELSE IF roll <= 10 THEN PickOr(Genuine, anySend)              \* replays of processed messages
-      ELSE IF roll <= 11 THEN PickOr(Useful(CleanEvents), PickOr(CleanEvents, anySend))
+      ELSE IF roll <= 11 THEN okClean
       ELSE IF roll <= 12 THEN RandomElement(CleanEvents \cup BadSendEvents \cup SendEvents)
-      ELSE IF roll <= 13 THEN PickOr(RuleEvents, anySend)
-      ELSE IF roll <= 14 THEN PickOr(ExpireEvents, honest)
+      ELSE IF roll <= 13 THEN PickOr(RuleEvents \cup ExportEvents, anySend)
+      ELSE IF roll <= 14 THEN PickOr(ExpireEvents \cup ExportEvents, honest)
       ELSE IF AdvOn THEN AdvPick ELSE honest
 
 NextSim == \E e \in {SimEvent} : Do(e) /\ Log(e)
